@@ -12,7 +12,7 @@ CHECKS = {
                      "created only in user sessions; token objects change only with a read-write session). Every "
                      "transition of the bounded graphs - all login interleavings x object kinds x 20 entry points, with "
                      "handles kept across logout/close - is executed on the library per key class and the recorded "
-                     "executions are validated by TLC against the specification.",
+                     "executions are validated by TLC against the specification. Key-making calls whose template is refused only while the object is built (after the access checks) are executed next to bystander objects, and every object-making call of every driver finds a LIVE handle in its output variable on entry.",
                 note="Trusted: TLC, the ctypes driver, bounds (1 token: 4 handles/2 objects; 2 tokens: 4 handles/1-2 "
                      "objects; simulation to 9 handles). One representative mechanism per entry point and key class; "
                      "cross-token use of handles is not generated."),
@@ -21,14 +21,14 @@ CHECKS = {
                      "foreign handles) for the session/login invariants and action properties; every transition of the "
                      "bounded graphs is then executed on the real library and every recorded execution "
                      "(C_GetSessionInfo of every session after every call) is validated by TLC against the same "
-                     "specification.",
+                     "specification. The failing-call clause is also exercised with the token's files removed behind the library's back (Vanish): a C_Login that fails because the PIN cannot be verified any more leaves all sessions public.",
                 note="Trusted: TLC, the ctypes driver's transcription of calls, the bounded constants (handles <= 4 "
                      "exhaustively, 8 by simulation). Token flags are not observed."),
     "C11": dict(level="model_checking", ref="DESIGN.md 5 C11", tech=TECH,
                 text="P11Core.tla is model checked for NeverReissued, StableDenotation, the exact purge sets of "
                      "close/close-all/logout/destroy and one-handle-per-object; every transition of the bounded graphs "
                      "is executed on the library and after every call every handle ever issued is probed; TLC validates "
-                     "validity, denotation and freshness of all handles in every recorded state.",
+                     "validity, denotation and freshness of all handles in every recorded state. Kind-changing copies (token/session, public to private) are covered by TRANSITION PAIRS (line graph of the state graph), because the abstract state does not remember whether an object was copied or created.",
                 note="Trusted: TLC, the driver, bounds (2 tokens, <= 4-5 handles, <= 2-3 objects exhaustively; 10 "
                      "handles by simulation). Identity is read through driver-written tag attributes."),
     "C19": dict(level="model_checking", ref="DESIGN.md 5 C19", tech=TECH,
@@ -52,7 +52,7 @@ CHECKS["C04"] = dict(level="model_checking", ref="DESIGN.md 5 C04", tech=TECH,
          "C_InitToken/C_InitPIN/C_SetPIN/C_Login/restart within bounds; every transition is executed and after every "
          "call a new process tries EVERY PIN symbol (prefix, extension, one-bit neighbour, embedded NUL, non-ASCII, "
          "too short/long, empty, the other user's PIN) as SO and as user and reads the private sentinel object; TLC "
-         "demands that exactly the current PINs authenticate and nothing else changed.",
+         "demands that exactly the current PINs authenticate and nothing else changed. Under threads: two sessions change the user PIN at once (ConcTok, a linearizability specification with silent effect steps; all two-preemption schedules through the mutex callbacks): of two C_SetPIN calls naming the same old PIN only one may succeed.",
     note="Trusted: TLC, the driver. 'All byte strings' is sampled through named relations with bytes drawn per seed "
          "(3 concretisations quick, 50 thorough). Blob check accepts a wrong PIN with probability ~2^-24 by design.")
 CHECKS["C08"] = dict(level="model_checking", ref="DESIGN.md 5 C08", tech=TECH,
@@ -60,7 +60,7 @@ CHECKS["C08"] = dict(level="model_checking", ref="DESIGN.md 5 C08", tech=TECH,
          "what PKCS#11 says the history attributes must be (HistoryTruth), and the action properties OneWay, Frozen, "
          "NotDestroyable, TrustedOnlyBySO, FailedNoEffect; TLC checks them over every history of <= 3 objects; every "
          "transition of the bounded graphs becomes one implementation test per key class, after which ALL policy and "
-         "history attributes of all live objects are read back and validated by TLC.",
+         "history attributes of all live objects are read back and validated by TLC. Templates that name one attribute twice (first refused / last refused, CKA_PRIVATE true then false) are part of the Set and Copy template sets.",
     note="Trusted: TLC, the driver. Template sets are those of MC_Policy.tla (single attributes and mixed templates up "
          "to 3 entries, every order for the listed pairs); key classes AES, generic, DES3, EC private, RSA private.")
 CHECKS["C02"] = dict(level="model_checking", ref="DESIGN.md 5 C02", tech=TECH,
@@ -68,7 +68,7 @@ CHECKS["C02"] = dict(level="model_checking", ref="DESIGN.md 5 C02", tech=TECH,
          "histories over a key, its copies and derived keys; for every transition the implementation is asked for "
          "every secret attribute alone and mixed, with NULL/small/exact/large buffers, and to wrap under trusted and "
          "untrusted keys; TLC validates return code, unavailable length, untouched canary buffers, refusal of wraps "
-         "and a leak scan of all returned bytes against the protected values.",
+         "and a leak scan of all returned bytes against the protected values. Under threads (ConcTok): CKA_VALUE of a shared sensitive session key is read at every scheduling point of another thread's refused - rolled back - C_SetAttributeValue.",
     note="Trusted: TLC, the driver, the leak scan (8-byte windows of values the driver knows: created, unwrapped, or "
          "read while legitimately readable). Side channels and C_DigestKey are not covered.")
 CHECKS["C07"] = dict(level="model_checking", ref="DESIGN.md 5 C07", tech=TECH,
@@ -76,7 +76,7 @@ CHECKS["C07"] = dict(level="model_checking", ref="DESIGN.md 5 C07", tech=TECH,
          "the PKCS#11 mechanism definitions, CKA_ALLOWED_MECHANISMS, slots.mechanisms) and the always-authenticate "
          "machine; TLC enumerates the finite table as the edges of MC_Mech; EVERY cell is executed on the library "
          "(re-initialised per configuration) and TLC validates 'started OK => permitted' and 'output only after a "
-         "successful start / context login' on the recorded executions.",
+         "successful start / context login' on the recorded executions. slots.mechanisms lists carry names unknown to the build at the front, in the middle and at the end (they are ignored).",
     note="Trusted: TLC, the driver's key material and mechanism parameters. Quick: 21 mechanisms x 3 configuration "
          "kinds (about 160k cells); thorough: all 73 advertised mechanisms x 5 kinds x 16 usage patterns. A permitted "
          "start may fail for other reasons (only-if); successes are counted in the evidence.")
@@ -87,7 +87,7 @@ CHECKS["C12"] = dict(level="model_checking", ref="DESIGN.md 5 C12", tech=TECH,
          "length (input + buffered + block + tag; exactly the fixed size otherwise), a buffer of the reported length is "
          "accepted, no overrun, failure ends the operation, and calls that cannot legitimately fail (MustWork) succeed. "
          "TLC enumerates all call interleavings to the depth bound and simulates beyond; every library call of every "
-         "replayed sequence is validated against the specification.",
+         "replayed sequence is validated against the specification. 'Unchanged' is checked to the byte: the output of every finishing call must be the mechanism's function of exactly the input of the accepted calls (reference digest / HMAC / CMAC / RSA signature, or the library's inverse operation), so a length query or a refused buffer that consumed input is caught.",
     note="Trusted: TLC, the driver's canary comparison (a written 0xA5 at the very end of the data cannot be told from an "
          "untouched byte), the ModeTable (block/tag/fixed sizes for a 1024-bit RSA key, P-256, Ed25519). Depth 3-4 "
          "exhaustive, 10-14 by simulation; 20 modes.")
@@ -98,7 +98,7 @@ CHECKS["C09"] = dict(level="model_checking", ref="DESIGN.md 5 C09", tech=TECH2,
          "entry kind in the templates of all creating and modifying calls over the reachable populations; every "
          "transition is executed and TLC compares the full object set with all attribute values (API) and the decoded "
          "directory (no junk files) with the specification after every call. " 
-         "Fault clause: the same exploration with the other judgement: a call that returned an error must leave the token directory as it was (violated on the pinned tree: known finding K09-fault-not-atomic).",
+         "Fault clause: the same exploration with the other judgement: a call that returned an error must leave the token directory as it was (violated on the pinned tree: known finding K09-fault-not-atomic). Templates with a repeated attribute in front of a refused entry are included; object-making calls find a live handle in their output variable.",
     note="Trusted: TLC, the driver, vf/tokdec.py. Both backends in the thorough tier. Fault clause: every file operation of "
          "the listed writing calls fails once (LD_PRELOAD shim, Trace_Crash TFault); a call that returned an error must "
          "leave the token directory as it was - violated on the pinned tree: known finding K09-fault-not-atomic.")
@@ -108,7 +108,7 @@ CHECKS["C05"] = dict(level="model_checking", ref="DESIGN.md 5 C05", tech=TECH2,
          "every call the acting library, a NEW PROCESS and the independent decoder must show the specification's "
          "state; session-object lifetime is replayed on P11Core; golden fixtures written by the pinned version are "
          "opened by the current library and TLC (Trace_Fixture) demands the recorded state. " 
-         "Fault clause: every file operation of the listed writing calls is made to fail once (LD_PRELOAD shim; a failed flush loses the buffered data), the call goes on and a fresh process must see the new state whenever the call returned CKR_OK (Trace_Crash TFault).",
+         "Fault clause: every file operation of the listed writing calls is made to fail once (LD_PRELOAD shim; a failed flush loses the buffered data), the call goes on and a fresh process must see the new state whenever the call returned CKR_OK (Trace_Crash TFault). Value lengths next to every power of two up to 1 MiB (create, privacy-raising copy, restart) are swept.",
     note="Trusted: TLC, the driver, vf/tokdec.py, the fixtures (written once by the pinned build incl. a 300 kB value). "
          "Power loss is out of scope (no fsync in the code); durable = visible to a new process. Quick tier samples the "
          "walks of the bounded graph (exhaustive = false), thorough covers it. Fault clause: every file operation of the listed writing calls fails once (a failed flush loses the data); a "
@@ -117,7 +117,7 @@ CHECKS["C06"] = dict(level="model_checking", ref="DESIGN.md 5 C06", tech=TECH2,
     text="Store.tla fixes the storage form of every slot (PrivateBytesEncrypted); every storing path is executed and "
          "the independent decoder (own parser, PBE via hashlib, AES via libcrypto EVP) reads the directory with the "
          "user PIN after every call: forms and decrypted values must be the specification's; plus IV reuse, master "
-         "key and private values in clear, and mode bits outside objectstore.umask (several umasks, both backends).",
+         "key and private values in clear, and mode bits outside objectstore.umask (several umasks, both backends). Under threads (ConcTok): a key is unwrapped into a private token object while another thread logs the user out; after each execution the token directory is scanned for the key value in clear.",
     note="Trusted: TLC, vf/tokdec.py, libcrypto. Key classes: generic secret and X.509 certificate. An empty byte "
          "string may be stored in either form; a private copy re-uses the ciphertext of unchanged values.")
 CHECKS["C16"] = dict(level="fault_enumeration", ref="DESIGN.md 5 C16",
@@ -129,7 +129,7 @@ CHECKS["C16"] = dict(level="fault_enumeration", ref="DESIGN.md 5 C16",
          "operation k; a fresh time-limited process recovers; TLC computes from the operation log what each file "
          "holds at k and demands the required outcome (usable, untouched objects and PINs intact, written object old "
          "or new) or exactly a deviation that is listed as a known finding. StoreMP.tla shows at design level that "
-         "the as-built truncate-then-write protocol violates CrashOldOrNew and an atomic variant satisfies it.",
+         "the as-built truncate-then-write protocol violates CrashOldOrNew and an atomic variant satisfies it. Reading calls (search, attribute reads of every object incl. HMAC- and DES3-typed keys, C_GetObjectSize, signing, encryption, token info; read-write and read-only session) are recorded too: TLC demands that their operation log contains no write at all (ReadOnlyOK).",
     note="Trusted: TLC, harness/fsshim.c (crash = _exit before the operation: process death, buffered data lost), the "
          "recovery probe. File backend; objects below the stdio buffer size. Four known findings (in-place rewrite "
          "windows and multi-step creation) are reported as KNOWN-FINDING; anything else is a VIOLATION.")
@@ -145,7 +145,7 @@ CHECKS["C15"] = dict(level="model_checking", ref="DESIGN.md 5 C15",
          "grain: StoreMP (refresh / transaction lock / write lock / truncate / flush / unlock, unlink) is model checked "
          "in its required form (NoLostCommittedUpdate, DestroyedStaysDestroyed, with crashes); every transition of the "
          "model with all choices open is a schedule that the shim's gate mode imposes on 2-3 real processes, and TLC "
-         "validates what each step returned and each value read.",
+         "validates what each step returned and each value read. The call-grain behaviours are replayed a second time with the other process searching while every C_CreateObject is in progress (results discarded): the following calls must still be exact.",
     note="Trusted: TLC, harness/fsshim.c (gate), vf/mpworker.py. File backend, local file system. Two known findings "
          "(stale commit after a concurrent commit; re-creation of a concurrently destroyed object) are accepted only as "
          "the named deviation in exactly those schedules and printed as KNOWN-FINDING after a required-protocol "
@@ -163,10 +163,11 @@ CHECKS["C18"] = dict(level="model_checking", ref="DESIGN.md 5 C18",
          "token and session objects, searches, attribute changes, destruction, session churn, cryptography). TLC "
          "validates begin/end of every call against ConcLin: a search returns everything live during the whole call and "
          "nothing never-live, nothing twice, no handle issued twice, own-object results exact, every call returns, final "
-         "token content exact. 8- and 16-thread free-running runs with OS locking are validated the same way.",
+         "token content exact. 8- and 16-thread free-running runs with OS locking are validated the same way. The state threads SHARE (login state, last-session logout, user PIN, private objects under construction) is specified in ConcTok.tla as a linearizability checker with silent effect steps; for its programs the calls take interleaving-dependent paths, so besides the TLC schedules every two-preemption schedule counted in points of the execution itself is run.",
     note="Trusted: TLC, vf/drv_conc.py (scheduler in the callbacks). File backend as the property states. Code that shares "
-         "state without a mutex is reached only by the free-running part. Two known findings (object visible before its "
-         "creation completed; torn read of a token object under concurrent searches) are accepted only in the scoped "
+         "state without a mutex is reached only by the free-running part. Three known findings (object visible before its "
+         "creation completed; torn read of a token object under concurrent searches; C_Logout not atomic with respect to "
+         "the creation of private objects) are accepted only in the scoped "
          "situations ConcLin names and printed as KNOWN-FINDING after the model without the deviation rejects an example.")
 VALTECH = ("TLA+ specification of values as terms (P11Val) + TLC exhaustive state graphs + replay of every transition on "
            "the library + independent reference implementation written out from the standards (vf/refcrypto.py) + TLC trace "
@@ -180,9 +181,9 @@ CHECKS["C13"] = dict(level="model_checking", ref="DESIGN.md 0.1, 5 C13", tech=VA
          "inputs; TLC demands: blob = the standard's bytes (RSA blobs open under the reference), Unwrap(Wrap(k)) = k "
          "(zero-padded for AES_KEY_WRAP), unwrapped keys not local / never-extractable / always-sensitive with the template "
          "honoured, damaged or foreign blobs rejected WITHOUT creating an object, derived value = the definition cut to length "
-         "(DES parity), non-empty CKA_CHECK_VALUE = the standard value.",
+         "(DES parity), non-empty CKA_CHECK_VALUE = the standard value. CKA_WRAP_TEMPLATE / CKA_UNWRAP_TEMPLATE of the wrapping key (AES and the RSA pair; entries on CKA_ENCRYPT and CKA_KEY_TYPE; absent, empty, matching, contradicting, silent caller template) are state of P11Val with the invariants WrapTemplateHonoured / UnwrapTemplateHonoured; every RSA component of an unwrapped private key is compared; library-made keys are private and public in turn; MValueR re-reads value and history attributes after C_Finalize / C_Initialize.",
     note="Trusted: TLC, vf/refcrypto.py (self-tested against RFC 3394/5649/4493 vectors), libcrypto's single-block AES/DES. "
-         "Not modelled: CKA_WRAP_TEMPLATE / CKA_UNWRAP_TEMPLATE, DES3 wrapping keys, EC/DSA/DH private keys as wrapped "
+         "Not modelled: byte-string entries in wrap templates, DES3 wrapping keys, EC/DSA/DH private keys as wrapped "
          "objects. Three fixes recorded (d2c8cef, 7cc798b, bacb4ad).")
 CHECKS["C10"] = dict(level="model_checking", ref="DESIGN.md 0.1, 5 C10", tech=VALTECH,
     text="Every deterministic mode (AES ECB/CBC/CBC-PAD/CTR/GCM/CMAC, 3DES ECB/CBC-PAD/CMAC, HMAC-SHA1/256/512, RSA PKCS#1 "
@@ -203,7 +204,7 @@ CHECKS["C20"] = dict(level="model_checking", ref="DESIGN.md 0.1, 5 C20",
          "blobs, ciphertexts, MACs, digests, deterministic signatures, derived secrets) must be identical in all four; "
          "randomised outputs of every configuration are accepted by the independent reference and vice versa. Every "
          "execution probes that the ECB family it advertises works. The token life cycle (P11Tok: initialisation, "
-         "re-initialisation, PINs and PIN status flags, objects, restart, fresh-process view) is replayed under file and db.",
+         "re-initialisation, PINs and PIN status flags, objects, restart, fresh-process view) is replayed under file and db. MValueR: after C_Finalize / C_Initialize every key is found again and value, CKA_LOCAL, CKA_KEY_GEN_MECHANISM (CK_UNAVAILABLE_INFORMATION, i.e. 2^64-1, for keys not generated), class and type must still be true under all four configurations.",
     note="Trusted as C13. Two known findings of the Botan build (ECB advertised but unusable with Botan 2.19; empty CBC "
          "decryption) are printed as KNOWN-FINDING; fix be36086 recorded. The other sequential checks (C01-C12, C19) run on "
          "file/OpenSSL; their thorough tiers add the db backend where the driver supports it.")
